@@ -66,6 +66,81 @@ def h_compare(ctx, D, P):
             ctx.fact(tu == full_u, "x %s y at D'=%d (%s) == at D=%d (%s)" % (name, Dp, tu, D, full_u))
 
 
+def h_eigh_scales(ctx):
+    """eigh with a small (but far above the 1e-8 threshold) eigenvalue gap and a huge
+    second-order coefficient: low-order results must not depend on the presence of A_2"""
+    from fractions import Fraction
+    from . import c08
+    from .. import stubs
+    from .common import mk_utpm, plain
+    algopy = symx.load_algopy()
+    n, D = 2, 3
+    zero = S.const(0) if ctx.mode == 'sym' else 0.0
+    Q0 = c08.rot2(ctx, 'q')
+    lam = [ctx.var('l0'), ctx.var('l1')]
+    ctx.assume(lam[1] - lam[0] > Fraction(1, 1000))
+    ctx.assume(lam[1] - lam[0] < Fraction(1, 100))
+    ctx.assume(lam[0] > -1)
+    ctx.assume(lam[1] < 1)
+    Lm = np.empty((n, n), dtype=object)
+    Lm[0, 0], Lm[0, 1], Lm[1, 0], Lm[1, 1] = lam[0], zero, zero, lam[1]
+    A0 = np.dot(np.dot(Q0, Lm), Q0.T)
+    if ctx.mode == 'sym':
+        stubs.register('eigh', A0, (np.array(lam, dtype=object), Q0))
+    X = np.empty((D, 1, n, n), dtype=object)
+    X[0, 0] = A0
+    a, b, c = ctx.var('a1'), ctx.var('b1'), ctx.var('c1')
+    for v in (a, b, c):
+        ctx.assume(v > -1)
+        ctx.assume(v < 1)
+    X[1, 0, 0, 0], X[1, 0, 0, 1], X[1, 0, 1, 0], X[1, 0, 1, 1] = a, b, b, c
+    big = 1e7 if ctx.mode == 'float' else S.const(10**7)
+    X[2, 0, 0, 0], X[2, 0, 0, 1], X[2, 0, 1, 0], X[2, 0, 1, 1] = big, big * 2, big * 2, big * (-1)
+    lf, Qf = algopy.eigh(mk_utpm(ctx, algopy, X))
+    lf, Qf = plain(lf.data), plain(Qf.data)
+    for Dp in (1, 2):
+        lp, Qp = algopy.eigh(mk_utpm(ctx, algopy, X[:Dp]))
+        ctx.eq(lf[:Dp], plain(lp.data), "eigenvalues[:%d] do not depend on A_2" % Dp)
+        # sign-invariant comparison of the eigenvectors
+        Qp = plain(Qp.data)
+        for d in range(Dp):
+            Sf = sum(np.dot(Qf[c], Qf[d - c].T) for c in range(d + 1))
+            ctx.eq(sum(np.outer(Qf[c][:, 0], Qf[d - c][:, 0]) for c in range(d + 1)),
+                   sum(np.outer(Qp[c][:, 0], Qp[d - c][:, 0]) for c in range(d + 1)), 'projector on eigenvector 0, order %d, D\'=%d' % (d, Dp))
+
+
+def h_reverse(ctx, pname, D, P, zero_first=False):
+    """reverse sweep: the adjoint coefficients of order < D' computed with D coefficients equal
+    those computed from inputs and seeds truncated to D'"""
+    from .c03 import Namespace, make_consts, make_curve, get_prog, record, pullback_guard
+    from .common import plain
+    algopy = symx.load_algopy()
+    prog = get_prog(pname)
+    arg, X = make_curve(ctx, prog, 'x', D, P)
+    if zero_first:
+        for p in range(P):
+            X[(0, p) + (0,) * len(prog.shape)] = S.const(0) if ctx.mode == 'sym' else 0.0
+    A = Namespace(algopy, make_consts(ctx, prog))
+
+    def sweep(Xc, YBc):
+        cg, fx, fy = record(ctx, algopy, A, prog, O.wrap(ctx, algopy, arg, Xc))
+        Yc = plain(fy.x.data)
+        if YBc is None:
+            YBc = np.empty(Yc.shape, dtype=object)
+            for idx in np.ndindex(*Yc.shape):
+                YBc[idx] = ctx.var('ybar%s' % list(idx))
+        ok = pullback_guard(ctx, algopy, cg, [O.wrap(ctx, algopy, O.Arg('utpm', Yc.shape[2:]), YBc)])
+        return (plain(fx.xbar.data).copy() if ok else None), YBc
+    XB, YB = sweep(X, None)
+    if XB is None:
+        return
+    for Dp in range(1, D):
+        XBp, _ = sweep(X[:Dp], YB[:Dp])
+        if XBp is None:
+            return
+        ctx.eq(XB[:Dp], XBp, "xbar[:%d] at D=%d == xbar at D'=%d" % (Dp, D, Dp))
+
+
 def units(tier, seed):
     out = []
     D, P = (4, 2) if tier == 'quick' else (6, 2)
@@ -74,5 +149,11 @@ def units(tier, seed):
             continue
         out.append(Unit('C12/%s/D%d,P%d' % (op.name, D, P), 'symx.props.c12', 'h_op',
                         {'opname': op.name, 'D': D, 'P': P}, {'property': PROP, 'path_budget': 300}))
+    for pn in ['x*x', 'x/(1+x*x)', 'exp', 'prod', 'dot(mat,mat)', 'buffer', 'inv', 'sin(x)*x', 'x**3', 'sqrt', 'outer']:
+        out.append(Unit('C12/reverse/%s/D3,P1' % pn, 'symx.props.c12', 'h_reverse', {'pname': pn, 'D': 3, 'P': 1}, {'property': PROP, 'float_tol': 1e-6}))
+    out.append(Unit('C12/reverse/prod with a zero factor/D3,P1', 'symx.props.c12', 'h_reverse', {'pname': 'prod', 'D': 3, 'P': 1, 'zero_first': True},
+                    {'property': PROP, 'float_tol': 1e-6}))
+    out.append(Unit('C12/eigh, small gap and huge second-order coefficient', 'symx.props.c12', 'h_eigh_scales', {},
+                    {'property': PROP, 'path_budget': 200, 'float_tol': 1e-5}))
     out.append(Unit('C12/comparisons/D3,P1', 'symx.props.c12', 'h_compare', {'D': 3, 'P': 1}, {'property': PROP, 'path_budget': 2000, 'validate_paths': 3}))
     return out
